@@ -32,7 +32,7 @@ class D(A, B):
 def pick(flag):
     if flag:
         return A()
-    elif flag is None:
+    elif flag.other:
         return B()
     return C
 if unknown:
@@ -58,7 +58,7 @@ y
 D().m
 '''
 DICTS = '''d1 = {1: 'a', 'a': 1, "b": 2, 'long key': 0}
-d2 = {1.0: 'b', True: 3, "a": 4, 'b"c': 5, 2: 0, "long key": 1}
+d2 = {1.0: 'b', 3: 3, "a": 4, 'b"c': 5, 2: 0, "long key": 1}
 if unknown:
     d = d1
 else:
@@ -66,18 +66,18 @@ else:
 item = d['a']
 '''
 HELPER = '''def make(x):
-    def inner(first, second=x, *rest):
+    def inner(first, second=x):
         return first
     return inner
 def deco(f):
-    def wrapped(*args, **kwargs):
-        return f(*args, **kwargs)
+    def wrapped(alpha, beta=3):
+        return f(alpha, beta)
     return wrapped
 @deco
-def helper(alpha, beta=make(0)):
+def helper(alpha, beta=3):
     return make(alpha)(beta)
-''' + ''.join('c%d = make(%d)(helper(%d, \n' % (i, i, i) for i in range(12)) + 'last = helper(c0, c1)\n'
-STARS = {'s1.py': 'dup = 1\nonly1 = 1\ndef fn(a): pass\n', 's2.py': "dup = 'x'\nonly2 = 2\ndef fn(a, b): pass\n",
+''' + ''.join('c%d = make(%d)(helper(%d, 1))\n' % (i, i, i) for i in range(12)) + 'last = helper(c0, c1)\n'
+STARS = {'s1.py': 'dup = 1\nonly1 = 1\ndef fn(a): return a\n', 's2.py': "dup = 'x'\nonly2 = 2\ndef fn(a, b): return b\n",
          's3.py': 'dup = 2.0\nfrom s1 import fn\nclass dupc: pass\n',
          'user1.py': 'import s1\ns1.fn(1)\nfrom s2 import fn\nfn(1, 2)\n', 'user2.py': 'from s1 import fn as g\ng(3)\n',
          'main.py': 'from s1 import *\nfrom s2 import *\nfrom s3 import *\nimport s1, s2\ndup\nfn(1)\ns1.fn\n'
@@ -125,7 +125,8 @@ def sources(root):
         add('dict' + str(len(out)), c, [['complete', c.count('\n') + 1, len(tail), {}], q('infer', c, 'item'),
                                         q('get_signatures', c, tail, len(tail), nth=c.count(tail) - 1)])
     c = HELPER
-    sites = [q('get_signatures', c, 'helper(%d, ' % i, 10) for i in range(12)]
+    sites = [q('get_signatures', c, 'make(%d)(' % i, 8 + len(str(i))) for i in range(12)]
+    sites += [q('get_signatures', c, 'helper(%d, ' % i, 9 + len(str(i))) for i in (0, 5, 11)]
     add('helper', c, sites + [q('infer', c, 'c%d = ' % i) for i in (0, 7, 11)] + [q('infer', c, 'last = ')])
     c = STARS['main.py'] + 'z.'
     add('stars', c, [q('infer', c, 'dup\n'), q('goto', c, 'dup\n'), q('goto', c, 'fn(1)', follow_imports=True),
@@ -133,14 +134,14 @@ def sources(root):
                      q('get_references', c, 's1.fn', 3), q('infer', c, 'both[0].fn', 8), q('help', c, 'both[0].fn', 8),
                      q('get_signatures', c, 'both[0].fn', 8), ['complete', c.count('\n') + 1, 2, {}],
                      q('complete', c, 'both[0].fn', 9), ['get_names', None, None, {'all_scopes': True}],
-                     ['search', 'fn', None, {}]], files=STARS)
+                     ['search', 'both', None, {}]], files=STARS)
     dirs = {n: os.path.join(root, 'syspath', 'dir_' + n) for n in 'ABCD'}
     files = {'dir_%s/samename.py' % n: 'origin_%s = %r\ndef fn(%s): return %r\n' % (n, n, ', '.join('abcd'[:i + 1]), n)
              for i, n in enumerate('ABCD')}
     files['dir_C/only_c.py'] = 'import samename\nvalue = samename.fn\n'
-    c = ('import sys\nsys.path.append(%r)\nsys.path.insert(0, %r)\nsys.path.append(%r)\nsys.path = [%r] + sys.path\n'
+    c = ('import sys\nsys.path.append(%r)\nsys.path.insert(0, %r)\nsys.path.append(%r)\nsys.path = [%r, %r]\n'
          'import samename\nfrom samename import fn\nimport only_c\nfn(\nonly_c.value\nsamename.' %
-         (dirs['A'], dirs['B'], dirs['C'], dirs['D']))
+         (dirs['A'], dirs['B'], dirs['C'], dirs['D'], dirs['A']))
     add('syspath', c, [q('infer', c, 'import samename', 8), q('goto', c, 'import samename', 8, follow_imports=True),
                        q('goto', c, 'import fn', 8), q('help', c, 'import fn', 8), q('get_signatures', c, 'fn(\n', 3),
                        q('infer', c, 'only_c.value', 8), q('get_references', c, 'import fn', 8),
